@@ -49,7 +49,7 @@ ReadTag(n, o) ==
       ELSE IF r = ReadWith({"d3"}, vchain', Cont, vmap', n) THEN "d3"
       ELSE IF r = ReadWith({"d2"}, vchain', Cont, vmap', n) THEN "d2"
       ELSE IF r = ReadWith({"d1"}, vchain', Cont, vmap', n) THEN "d1"
-      ELSE IF r = CodeRead(vchain', Cont, vmap', n) THEN "multi"
+      ELSE IF r = OldCodeRead(vchain', Cont, vmap', n) THEN "multi"
       ELSE IF r.res = "ok" /\ IdealRead(vchain', Cont, vmap', n).res # "ok" THEN "unverified"
       ELSE "wrong"
 NameTags(e, k) ==
